@@ -510,6 +510,9 @@ func (p *parser) parseTypedDecl() *Decl {
 		Var:   &Var{token: p.cur, Name: varName},
 	}
 	p.advance() // advance past IDENT
+	if !p.assertToken(lexer.COLON) {
+		return decl
+	}
 	p.advance() // advance past `:`
 	v := p.parseType()
 	if v == nil {
